@@ -101,21 +101,25 @@ def discovery_model(prop, tier, seed, verdict, cov):
 
 API_CONFIGS = {"C06": ["Calls", "Mixed", "Events"], "C02": ["Calls", "Mixed"], "C04": ["Events", "Mixed"]}
 API_TIERS = {"quick": dict(cap=2500, shards=4, suffix=""), "thorough": dict(cap=40000, shards=12, suffix="_thorough")}
+# the two API-level specifications: (module that enumerates, configuration prefix, driver, trace specification)
+API_FAMILY = {"bus": ("MC_BusApi.tla", "R_BusApi_", "api-replay", "Trace_BusApi"),
+              "chan": ("MC_ChanApi.tla", "R_ChanApi", "chan-replay", "Trace_ChanApi")}
 
 
-def api_model(prop, tier, seed, verdict, cov):
+def api_model(prop, tier, seed, verdict, cov, family="bus"):
     """BusApi.tla: every behaviour of the bounded API-level model (subscriptions, events, calls, aborts, service
     destruction) performed through real clients and a real broker (api-replay); every step's observable outcome
     validated by TLC against the specification (Trace_BusApi.tla)."""
     from concurrent.futures import ThreadPoolExecutor
     at = API_TIERS[tier]
-    wd = vlib.workdir(f"{prop}-{tier}-api")
+    module, prefix, driver, tspec = API_FAMILY[family]
+    wd = vlib.workdir(f"{prop}-{tier}-api-{family}")
     chosen, parts = [], []
-    for nm in API_CONFIGS[prop]:
-        cfgfile = f"R_BusApi_{nm}{at['suffix']}.cfg"
+    for nm in (API_CONFIGS[prop] if family == "bus" else [""]):
+        cfgfile = f"{prefix}{nm}{at['suffix']}.cfg"
         if not os.path.exists(os.path.join(vlib.SPEC, cfgfile)):
-            cfgfile = f"R_BusApi_{nm}.cfg"
-        ex = vlib.tlc_behaviours("MC_BusApi.tla", cfgfile, os.path.join(wd, "tlc-behaviours.out"), workers=8, timeout=1800)
+            cfgfile = f"{prefix}{nm}.cfg"
+        ex = vlib.tlc_behaviours(module, cfgfile, os.path.join(wd, "tlc-behaviours.out"), workers=8, timeout=1800)
         os.remove(os.path.join(wd, "tlc-behaviours.out"))
         allb = ex["behaviours"]
         stride = max(1, (len(allb) + at["cap"] - 1) // at["cap"])
@@ -128,12 +132,12 @@ def api_model(prop, tier, seed, verdict, cov):
     bfile = os.path.join(wd, "behaviours.ndjson")
     with open(bfile, "w") as f:
         f.write("\n".join(chosen) + "\n")
-    trace = os.path.join(wd, "api-replay.ndjson")
-    summ = vlib.run_driver("api-replay", ["--in", bfile, "--out", trace, "--seed", seed], timeout=3000)
+    trace = os.path.join(wd, f"{driver}.ndjson")
+    summ = vlib.run_driver(driver, ["--in", bfile, "--out", trace, "--seed", seed], timeout=3000)
     recs = vlib.read_ndjson(trace)
     shards = vlib.split_runs(trace, at["shards"], wd, "api")
     with ThreadPoolExecutor(max_workers=at["shards"]) as pool:
-        results = list(pool.map(lambda sh: (sh[1], vlib.tlc_trace("Trace_BusApi.tla", "Trace_BusApi.cfg", sh[0])), shards))
+        results = list(pool.map(lambda sh: (sh[1], vlib.tlc_trace(tspec + ".tla", tspec + ".cfg", sh[0])), shards))
     drifts = 0
     for off, r in results:
         if not r["consumed"]:
@@ -145,19 +149,20 @@ def api_model(prop, tier, seed, verdict, cov):
             # C06 states the consistency of results itself ("a call returns the value computed for that very call")
             mine = prop in p.split("+") or (prop == "C06" and p in ("C02", "C06"))
             if mine:
-                verdict.violation(why[:400], dict(kind="api-replay", behaviour=json.loads(chosen[run_no]) if run_no is not None and run_no < len(chosen) else None,
+                verdict.violation(why[:400], dict(kind=driver, behaviour=json.loads(chosen[run_no]) if run_no is not None and run_no < len(chosen) else None,
                                                   record_index=gi, trace=recs[a:b], violated_at=recs[gi - 1]))
             else:
-                verdict.note(f"violation of {p} observed while checking {prop}: {why[:200]} (api-replay, record {gi})")
+                verdict.note(f"violation of {p} observed while checking {prop}: {why[:200]} ({driver}, record {gi})")
         for (idx, why) in r["drifts"]:
             drifts += 1
             if drifts <= 5:
-                log(f"DRIFT property={prop} the real bus deviates from BusApi.tla: {why} (record {idx + off})")
+                log(f"DRIFT property={prop} the real bus deviates from {tspec[6:]}.tla: {why} (record {idx + off})")
     for p, _ in shards:
         os.remove(p)
     cov["drift"] = cov.get("drift", 0) + drifts
     cov["records"] = cov.get("records", 0) + len(recs)
-    cov["api_replay"] = dict(configs=parts, behaviours_replayed=len(chosen), steps=summ.get("steps", 0), flagged=summ.get("flagged", [])[:3], drifts=drifts)
+    cov["api_replay" if family == "bus" else "chan_api_replay"] = dict(configs=parts, behaviours_replayed=len(chosen), steps=summ.get("steps", 0),
+                                                                        flagged=summ.get("flagged", [])[:3], drifts=drifts)
 
 
 def run(prop, tier, seed):
@@ -302,6 +307,8 @@ def run(prop, tier, seed):
         coverage["spec_to_impl_replay"] = cov["discovery_replay"]
     if cov.get("api_replay"):
         coverage["api_level_replay"] = cov["api_replay"]
+    if cov.get("chan_api_replay"):
+        coverage["channel_api_replay"] = cov["chan_api_replay"]
     if prop == "C06" and cov.get("stop_scenarios"):
         coverage["stop_scenarios"] = cov["stop_scenarios"]
     if prop == "C15":
@@ -354,16 +361,17 @@ def replay(prop, path, seed):
                 a, b = vlib.run_of_record(recs, idx)
                 verdict.violation(why, dict(kind="stop-scenarios", driver_args=data["driver_args"], record_index=idx, trace=recs[a:b][:200]))
         log(f"re-run of the scenarios on the current tree: {verdict.violations} violation(s) of {prop}")
-    elif data.get("kind") == "api-replay":
+    elif data.get("kind") in ("api-replay", "chan-replay"):
         bfile = os.path.join(wd, "behaviour.ndjson")
         with open(bfile, "w") as f:
             f.write(json.dumps(data["behaviour"]) + "\n")
         out = os.path.join(wd, "rerun.ndjson")
-        vlib.run_driver("api-replay", ["--in", bfile, "--out", out, "--seed", seed])
-        r = vlib.tlc_trace("Trace_BusApi.tla", "Trace_BusApi.cfg", out)
+        vlib.run_driver(data["kind"], ["--in", bfile, "--out", out, "--seed", seed])
+        tspec = "Trace_BusApi" if data["kind"] == "api-replay" else "Trace_ChanApi"
+        r = vlib.tlc_trace(tspec + ".tla", tspec + ".cfg", out)
         recs = vlib.read_ndjson(out)
         for (idx, p, why) in r["violations"]:
-            verdict.violation(why[:400], dict(kind="api-replay", behaviour=data["behaviour"], record_index=idx, trace=recs, violated_at=recs[idx - 1]))
+            verdict.violation(why[:400], dict(kind=data["kind"], behaviour=data["behaviour"], record_index=idx, trace=recs, violated_at=recs[idx - 1]))
         log(f"re-run of the stored behaviour on the current tree: {verdict.violations} violation(s)")
     elif data.get("kind") == "discovery-replay":
         bfile = os.path.join(wd, "behaviour.ndjson")
